@@ -151,11 +151,19 @@ static bool same(const Out& a, const Out& b) { return a.size() == b.size() && (a
 static bool cacheable(int n) { return !(n == 1 || n == 2 || n == 4 || n == 8); }
 
 // LRU discipline between the key lists before (B) and after (A) one request
-static std::string lru_check(const std::vector<int>& B, const std::vector<int>& A, int K, int primary, int nreq) {
+static std::string lru_check(const std::vector<int>& B, const std::vector<int>& A, int K, int primary, int nreq, const std::set<int>* allowed = nullptr) {
     if ((int)A.size() > K) return fmt("cache holds %zu > %d keys", A.size(), K);
     for (size_t i = 0; i < A.size(); ++i)
         for (size_t j = i + 1; j < A.size(); ++j)
             if (A[i] == A[j]) return "duplicate key in the cache list";
+    if (allowed) {   // a key that was not cached before must be one this request creates when it is the first request of a fresh process
+        for (int a : A) {
+            bool inB = false;
+            for (int b : B) inB |= a == b;
+            if (!inB && a != primary && !allowed->count(a))
+                return fmt("key %d appeared in the calling thread's cache although this request never creates it (plan of another thread / request?)", a);
+        }
+    }
     bool need_primary = primary > 0 && cacheable(primary);
     if (need_primary && (A.empty() || A[0] != primary)) return fmt("requested plan %d is not the most recently used key", primary);
     for (size_t t = need_primary ? 1 : 0; t <= A.size(); ++t) {
@@ -201,8 +209,11 @@ struct SeqResult {
 };
 
 // run `seq` in a fresh thread, check its last request
+struct Touch {
+    std::set<int> c, r;
+};
 static SeqResult run_seq(const std::vector<Req>& seq, const std::vector<Out>& fresh_out, const std::vector<int>& letter_idx, int K,
-                         bool check_all) {
+                         bool check_all, const std::vector<Touch>* touch = nullptr) {
     SeqResult res;
     std::thread t([&] {
         try {
@@ -245,8 +256,9 @@ static SeqResult run_seq(const std::vector<Req>& seq, const std::vector<Out>& fr
                 }
                 int nreq = (q.kind == USE || q.kind == USEBAD) ? 1 << 20 : ((q.kind == PAD_C || q.kind == PAD_R) ? q.n % 1000 : q.n);
                 const bool thrown = is_thrown(o);   // a rejected request need not have cached its plan
-                std::string e1 = lru_check(Bc, Ac, K, thrown ? 0 : primary_key(q, false), nreq);
-                std::string e2 = lru_check(Br, Ar, K, thrown ? 0 : primary_key(q, true), nreq);
+                const Touch* tq = (touch && (size_t)letter_idx[s] < touch->size()) ? &(*touch)[(size_t)letter_idx[s]] : nullptr;
+                std::string e1 = lru_check(Bc, Ac, K, thrown ? 0 : primary_key(q, false), nreq, tq ? &tq->c : nullptr);
+                std::string e2 = lru_check(Br, Ar, K, thrown ? 0 : primary_key(q, true), nreq, tq ? &tq->r : nullptr);
                 if ((!e1.empty() || !e2.empty()) && res.err.empty()) {
                     res.err = fmt("step %zu (%s): %s cache: %s; before %s / after %s", s, rname(q).c_str(), e1.empty() ? "real" : "complex",
                                   (e1.empty() ? e2 : e1).c_str(), show(e1.empty() ? Br : Bc).c_str(), show(e1.empty() ? Ar : Ac).c_str());
@@ -301,6 +313,38 @@ int main(int argc, char** argv) {
                 return 4;
             }
         }
+        // keys each letter creates as the first request of a fresh PROCESS (forked child; computed by the implementation itself)
+        std::vector<Touch> touch((size_t)NL);
+        {
+            Touch holds;
+            for (int li = 0; li < NL; ++li) {
+                const Req q = al.letters[(size_t)li];
+                if (q.kind == USE || q.kind == USEBAD) continue;
+                fb::Result r = fb::run(
+                    [&] {
+                        std::string o;
+                        std::thread t([&] {
+                            std::vector<Held> h;
+                            exec(q, h);
+                            for (int k : verif::fft_cache_keys()) o += "c " + std::to_string(k) + "\n";
+                            for (int k : verif::rfft_cache_keys()) o += "r " + std::to_string(k) + "\n";
+                        });
+                        t.join();
+                        fb::emit(o);
+                    },
+                    60.0);
+                std::istringstream in(r.out);
+                char tag;
+                int k;
+                while (in >> tag >> k) (tag == 'c' ? touch[(size_t)li].c : touch[(size_t)li].r).insert(k);
+                if (q.kind == HOLD_C || q.kind == HOLD_R || q.kind == HOLD_I || q.kind == HOLD_IR || q.kind == HOLD_Z) {
+                    holds.c.insert(touch[(size_t)li].c.begin(), touch[(size_t)li].c.end());
+                    holds.r.insert(touch[(size_t)li].r.begin(), touch[(size_t)li].r.end());
+                }
+            }
+            for (int li = 0; li < NL; ++li)
+                if (al.letters[(size_t)li].kind == USE || al.letters[(size_t)li].kind == USEBAD) touch[(size_t)li] = holds;
+        }
         // every sequence of length 1..d; sequences are grouped by their first min(L,3) letters into blocks
         for (int L = 1; L <= d; ++L) {
             const int PL = std::min(L, asan ? 2 : 4);   // block prefix length
@@ -327,7 +371,7 @@ int main(int argc, char** argv) {
                         std::vector<Req> seq;
                         for (int i : idx) seq.push_back(al.letters[(size_t)i]);
                         if (asan) fb::shm()->prog[0] = r;
-                        SeqResult sr = run_seq(seq, fr, idx, K, false);
+                        SeqResult sr = run_seq(seq, fr, idx, K, false, &touch);
                         ++evals;
                         if (L >= 2) ++nontriv;
                         uint64_t h = mix(fnv(al.name), (uint64_t)K);
@@ -360,6 +404,41 @@ int main(int argc, char** argv) {
                     });
                 }
             }
+        }
+    }
+
+    // ---- per-thread retention: what other threads request never changes the calling thread's caches
+    if (ctx.wants("thread.isolation") && !asan) {
+        std::vector<Req> U;
+        for (int a = 0; a < 3; ++a)
+            for (auto& q : alphs[(size_t)a].letters) U.push_back(q);
+        for (size_t qa = 0; qa < U.size(); ++qa) {
+            if (!ctx.take("thread.isolation", P().kv("K", K).kv("request", rname(U[qa])))) continue;
+            std::string err;
+            Out ref = fresh(U[qa]);
+            std::thread ta([&] {
+                std::vector<Held> h;
+                Out o1 = exec(U[qa], h);
+                std::vector<int> c1 = verif::fft_cache_keys(), r1 = verif::rfft_cache_keys();
+                std::thread tb([&] {
+                    std::vector<Held> hb;
+                    for (auto& q : U) exec(q, hb);
+                });
+                tb.join();
+                std::vector<int> c2 = verif::fft_cache_keys(), r2 = verif::rfft_cache_keys();
+                if (c1 != c2 || r1 != r2)
+                    err = fmt("after another thread made %zu requests the calling thread's caches changed: complex %s -> %s, real %s -> %s", U.size(), show(c1).c_str(),
+                              show(c2).c_str(), show(r1).c_str(), show(r2).c_str());
+                Out o2 = exec(U[qa], h);
+                if (err.empty() && (!same(o1, ref) || !same(o2, ref))) err = "result differs from the fresh-thread result after another thread used the library";
+                std::vector<int> c3 = verif::fft_cache_keys(), r3 = verif::rfft_cache_keys();
+                if (err.empty() && (c3 != c1 || r3 != r1)) err = "repeating the request (a cache hit) changed the key lists: " + show(c1) + " -> " + show(c3);
+            });
+            ta.join();
+            ctx.nontrivial();
+            ++ctx.traces;
+            ctx.transitions += U.size() + 2;
+            if (!err.empty()) ctx.fail("isolation", rname(U[qa]) + ": " + err, "each thread retains its own most recently used plans", P().kv("kind", "isolation"));
         }
     }
 
